@@ -40,6 +40,8 @@ func NewInput(name string, n int, nsw int) *Input {
 	in := &Input{}
 	if long.filler != "" {
 		in.S = longString(name, n)
+	} else if raw.on {
+		in.S = rawString(name, n)
 	} else {
 		in.S = rt.SymString(name, n)
 	}
@@ -58,6 +60,30 @@ func NewInput(name string, n int, nsw int) *Input {
 var long struct {
 	filler string
 	holes  [2]int
+}
+
+// Raw inputs: the Go string given as Buffer contains bytes that are not valid UTF-8 (or a NUL)
+// at one place; everything around them is arbitrary. Go decodes every invalid byte to U+FFFD, so
+// the rune sequence still has n runes.
+var raw struct {
+	on        bool
+	pos, kind int
+}
+
+// RawBytes are the byte sequences SetRaw can insert: a lone 0xFF, a truncated two- and
+// three-byte sequence, an encoded surrogate, a sequence above U+10FFFF, and NUL.
+var RawBytes = []string{"\xff", "\xc3", "\xe2\x82", "\xed\xa0\x80", "\xf4\x90\x80\x80", "\x00"}
+
+func SetRaw(pos, kind int) { raw.on, raw.pos, raw.kind = true, pos, kind }
+func ClearRaw()            { raw.on = false }
+
+func rawString(name string, n int) string {
+	b := RawBytes[raw.kind]
+	k := len([]rune(b))
+	if raw.pos < 0 || raw.pos+k > n {
+		return rt.SymString(name, n)
+	}
+	return rt.SymString(name+"p", raw.pos) + b + rt.SymString(name+"s", n-raw.pos-k)
 }
 
 // SetLong switches NewInput to long mode (h < 0: no hole). ClearLong switches back.
